@@ -97,6 +97,37 @@ def gen_case(rng, big=False, allow_huge=True):
     return {"n": n, "offs": offs, "tol": tol, "p0": p0, "ops": ops}
 
 
+def gen_boundary():
+    """fixed boundary family, run on every invocation: all 2^6 alive patterns over the six health domains
+    (a dead domain has every node dead; an alive one keeps all nodes or a single survivor), for 1-3 nodes,
+    under random and a min policy, then every requested type x {strict, non-strict} x {no exclusion, the
+    survivor excluded}.  Exercises every same-family and cross-family fallback chain."""
+    cases = []
+    minpols = ["min", "min_avg10", "min_moving_avg"]
+    reqs = [("udp", 4, False, 2), ("udp", 6, False, 0), ("udp", 4, True, 1), ("udp", 6, True, 1),
+            ("tcp", 4, False, 0), ("tcp", 6, True, 0)]
+    for pat in range(64):
+        n = 1 + pat % 3
+        k = (pat // 3) % n
+        single = (pat % 2 == 1)
+        for pol in ("random", minpols[pat % 3]):
+            ops = []
+            for t in range(6):
+                alive = (pat >> t) & 1
+                for d in range(n):
+                    if not alive or (single and d != k):
+                        ops.append({"k": "die" if (pat + t) % 2 == 0 else "notify", "d": d, "t": t, "alive": False})
+            if pol != "random" and n > 1:
+                ops.append({"k": "sample", "d": k, "t": [t for t in range(6) if (pat >> t) & 1][0] if pat else 0, "lat": 50 * MS})
+            for (l4, v, isdns, udom) in reqs:
+                for strict in (True, False):
+                    for excl in ((-1, k) if n > 1 else (-1,)):
+                        ops.append({"k": "select", "l4": l4, "v": v, "isdns": isdns, "udom": udom, "strict": strict,
+                                    "excl": excl, "draws": 3 if pol == "random" and n > 1 else 1})
+            cases.append({"n": n, "offs": [0] * n, "tol": 30 * MS, "p0": {"p": pol, "i": 0}, "ops": ops})
+    return cases
+
+
 # ------------------------------------------------------------------ Coq terms
 class ZPool:
     """number notations are interpreted by running a Coq conversion function: name every distinct constant once"""
@@ -356,7 +387,7 @@ def main(argv):
     args = vlib.main_args(argv)
     out = vlib.Outcome(PID, args.tier, args.seed)
     rng = vlib.rng_for(args.seed, PID)
-    n_cases = 150 if args.tier == "quick" else 8000
+    n_cases = 100 if args.tier == "quick" else 8000
 
     proof_ok, pinfo = vlib.proof_stage(out, PROPS, TARGETS)
     cov = {"obligations": pinfo["obligations"], "discharged": pinfo["discharged"],
@@ -385,7 +416,8 @@ def main(argv):
             for n in sorted(os.listdir(cdir)):
                 if n.endswith(".json"):
                     corpus.append(json.load(open(os.path.join(cdir, n))))
-        cases = corpus + [gen_case(rng, big=(i % 5 == 0)) for i in range(n_cases)]
+        boundary = gen_boundary()
+        cases = corpus + boundary + [gen_case(rng, big=(i % 5 == 0)) for i in range(n_cases)]
         all_err = {}
         sigs = []
         shard = 400
@@ -462,9 +494,9 @@ def main(argv):
         elif spec_fail and not proof_ok:
             out.violation("proof", {"proof": pinfo["failed"]}, "proof stage failed", no_failing_input=True)
         nontrivial = len(set(s for s in sigs if int(s[0]) > 0 and (int(s[1]) > 0 or int(s[2]) > 0 or int(s[4]) > 0)))
-        first_gen = len(corpus)
+        first_gen = len(corpus) + len(boundary)
         cov.update(evaluations=n_eval, distinct_nontrivial=nontrivial, distinct_signatures=len(set(sigs)),
-                   rule="random histories over 1-6 nodes (offsets incl. negative and >= 1 h), tolerance in {0,1ns,30ms,100ms,1s,2h}, "
+                   rule="fixed boundary family (all 64 alive patterns over the six health domains x 1-3 nodes x random/min policy x every requested type x strict/non-strict x exclusion) + random histories over 1-6 nodes (offsets incl. negative and >= 1 h), tolerance in {0,1ns,30ms,100ms,1s,2h}, "
                         "latency levels on a grid with +-tolerance boundaries and ties, ops: probe success/forced death/probe failure/"
                         "direct set notification/silent sample/policy switch (6 policies, fixed index out of range)/selection "
                         "(all type flag variants, strict or not, any excluded node, repeated draws for random); signature = "
